@@ -1,4 +1,5 @@
 import CssVerif.Lemmas.Decl
+import CssVerif.Lemmas.DeclText
 import CssVerif.Gen.C10Names
 /-!
 # C10 — declaration blocks obey the ordered-multimap-with-cascade model
@@ -489,5 +490,99 @@ theorem vars_escaped_backslash_fixed :
     escVars.seq = [.var escLit ⟨[50], [50]⟩] ∧ VInv escVars := by
   refine ⟨by decide, by decide, by decide, ?_⟩
   exact vSet_inv _ _ _ _ (vSet_inv _ _ _ _ vars_inv_empty)
+
+/-! ## T10.8 `cssText` of both block kinds: the rendering lists exactly the entries
+
+Model: `Model/DeclText.lean` (`do_Property`, `do_css_CSSStyleDeclaration`, `do_css_CSSVariablesDeclaration` with
+`Out`), for EVERY setting of the serializer preferences these methods read (`SPrefs`) and every value serializer /
+validity oracle (`REnv`). `linesOf` / `lineOf` / `renderLines` / `vLines` (`Lemmas/DeclText.lean`) are the transparent
+reference renderings. -/
+
+/-- T10.8 (style block, layout): `style.cssText` is the lines of the written items joined by the line separator, no
+separator after the last line; a line is a comment, or `name: value [priority]` of one entry followed by `;` unless it
+is the last item and `omitLastSemicolon` is set (`lineOf`). For every block, every preference setting. -/
+theorem cssText_layout (pf : SPrefs) (re : REnv) (seq : List Item) :
+    cssTextP pf re seq = joinWith pf.lineSeparator (linesOf pf re pf.omitLastSemicolon (declSeqP pf seq)) := by
+  unfold cssTextP
+  rw [cssTextSep_joinWith]
+  simp
+
+/-- … and `getCssText(separator)` likewise with the given separator -/
+theorem getCssText_layout (pf : SPrefs) (re : REnv) (sep : Cps) (seq : List Item) :
+    cssTextSep pf re sep true seq = joinWith sep (linesOf pf re pf.omitLastSemicolon (declSeqP pf seq)) := by
+  rw [cssTextSep_joinWith]
+  simp
+
+/-- T10.8 (style block, `keepAllProperties` on — the default): every item of the block is written, in order; so the
+lines list every entry that has a text (a not well-formed one has none), duplicates included -/
+theorem cssText_all_entries (pf : SPrefs) (seq : List Item) (hk : pf.keepAllProperties = true) :
+    declSeqP pf seq = seq := by
+  simp [declSeqP, hk]
+
+/-- T10.8 (style block, `keepAllProperties` off): an entry is written iff it is the effective entry of its name —
+every written entry is the effective one of its name, every name of the block is written, exactly once, in block
+order, and comments stay -/
+theorem cssText_effective_entries (pf : SPrefs) (seq : List Item) (hk : pf.keepAllProperties = false) :
+    (∀ p ∈ props (declSeqP pf seq), effective (props seq) p.name = some p) ∧
+    (∀ n ∈ nnames seq, ∃ p ∈ props (declSeqP pf seq), p.name = n) ∧
+    ((props (declSeqP pf seq)).map (·.name)).Nodup ∧
+    (props (declSeqP pf seq)).Sublist (props seq) ∧
+    nonProps (declSeqP pf seq) = nonProps seq := by
+  rw [declSeqP_effective pf seq hk]
+  refine ⟨?_, ?_, keepBy_names_nodup (effectiveIdx seq) seq 0, props_keepBy_sublist _ _ _, nonProps_keepBy _ _ _⟩
+  · intro p hp
+    obtain ⟨j, hj, hq⟩ := mem_props_keepBy _ seq 0 p hp
+    simp only [Nat.zero_add, beq_iff_eq] at hq
+    rw [← effectiveOf_effective]
+    unfold effectiveOf
+    rw [hq]
+    simp [propAt, hj]
+  · intro n hn
+    obtain ⟨q, hq, hqn⟩ := (mem_nnames seq n).mp hn
+    obtain ⟨x, hx⟩ := effectiveBy_isSome_of_mem (fun r => r.name == n) (props seq) q hq (by simp [hqn])
+    have hx' : effectiveOf seq n = some x := by rw [effectiveOf_effective]; exact hx
+    unfold effectiveOf at hx'
+    cases hi : effectiveIdx seq n with
+    | none => rw [hi] at hx'; simp at hx'
+    | some i =>
+      rw [hi] at hx'
+      simp only [Option.bind_some] at hx'
+      obtain ⟨p', hp', hname⟩ := effectiveIdx_sound seq n i hi
+      rw [hx'] at hp'
+      simp only [Option.some.injEq] at hp'
+      subst hp'
+      refine ⟨x, props_keepBy_mem _ seq 0 i x (propAt_some seq i x hx') ?_, hname⟩
+      simp [hname, hi]
+
+/-- non-vacuity and a test of the layout on a concrete block (`c: 1 !important; c: 2` plus a comment) under the
+default preferences, with `keepAllProperties` off, and under the minifying settings -/
+example :
+    cssTextP SPrefs.default REnv.default renderWitness = cps "c: 1 !important;\n/*k*/\nc: 2" ∧
+    cssTextP { SPrefs.default with keepAllProperties := false } REnv.default renderWitness
+      = cps "c: 1 !important;\n/*k*/" ∧
+    cssTextP minifiedPrefs REnv.default renderWitness = cps "c:1 !important;c:2" := by
+  decide
+
+/-- T10.8 (variables block): for every block and every preference setting whose layout strings are white space
+(`LayoutWs`: the defaults, `useMinified`, …), the serialisation is — up to that layout white space — exactly its
+lines written one after the other: `name:value;` per variable (the last `;` omitted with `omitLastSemicolon`),
+comments in between (`renderLines`); and with `normalizedVarNames` the entries of these lines are `vSerialized`,
+i.e. (T10.7) exactly the variables the API reports. `Out.append`'s white-space bookkeeping (removal of a trailing
+blank, spacers, the blank between `/` and `*`, the indented `}`), `Out.value` and the final strip that keeps an
+escaped blank never add or drop anything else. -/
+theorem vars_cssText_entries (pf : SPrefs) (re : REnv) (il : Nat) (s : Vars) (hl : LayoutWs pf) :
+    stripWs (vCssTextP pf re il s) = stripWs (renderLines pf.omitLastSemicolon (vLines pf re s.seq)) ∧
+    (pf.normalizedVarNames = true → lineEntries (vLines pf REnv.default s.seq) = vSerialized s) := by
+  refine ⟨?_, lineEntries_vLines pf s⟩
+  rw [vCssTextP_content pf re il s hl, vContent_lines]
+
+/-- the hypothesis is satisfiable: the default and the minifying preferences have white-space layout strings;
+and the exact text of a concrete block -/
+example : LayoutWs SPrefs.default ∧ LayoutWs minifiedPrefs ∧
+    vCssTextP SPrefs.default REnv.default 1 escVars = cps "a\\g: 2" ∧
+    vCssTextP minifiedPrefs REnv.default 1 varsWitness = cps "x:1;y:2" ∧
+    vCssTextP SPrefs.default REnv.default 1 varsWitness = cps "x: 1;\n/*k*/ \n y: 2" := by
+  refine ⟨⟨by decide, by decide, by decide, by decide, by decide, by decide⟩,
+    ⟨by decide, by decide, by decide, by decide, by decide, by decide⟩, by decide, by decide, by decide⟩
 
 end CssVerif.C10
